@@ -94,6 +94,8 @@ impl MultiPattern {
     }
 
     pub fn score(&self, haystack: &[Utf32String], matcher: &mut Matcher) -> Option<u32> {
+        #[cfg(nucleo_verif)]
+        crate::verif::point("matchers:use", matcher as *mut Matcher as u64);
         // TODO: wheight columns?
         let mut score = 0;
         for ((pattern, _), haystack) in self.cols.iter().zip(haystack) {
